@@ -132,6 +132,29 @@ def main(tier, seed, replay=None):
                 run.violation("residuals are exposed although the last model evaluation was non-finite (%s)" % desc, {"case": c, "result": r})
             if fit["ok"] and after["resid"] is None:
                 run.violation("a fit reported as successful has no residuals (%s)" % desc, {"case": c, "result": r})
+    # model construction: arbitrary builder programs (valid and invalid, incl. closures of a wrong arity or output length), and
+    # every call on whatever model results — an error value or a result, never a panic
+    from . import c15, mb
+    mprogs = []
+    for j in range(600 if tier == "quick" else 20000):
+        names, ops = c15.random_program(rng)
+        P = len(names)
+        calls = [("params",), ("eval",)] + [("deriv", k) for k in range(P + 1)] + [("set", [rng.randint(11, 99) for _ in range(P)]), ("eval",)] \
+            + [("deriv", k) for k in range(P)]
+        mc = mb.to_harness(names, ops, scalar="f64" if j % 2 else "f32", calls=calls)
+        mc["id"] = j
+        mprogs.append((names, ops, calls, mc))
+    mres = run_harness(build_harness("dev"), "mbuilder", [m[3] for m in mprogs], os.path.join(COQ, "run", "C08"), timeout_ms=10000, tag="mb")
+    nmb_ok = 0
+    for (names, ops, calls, mc), r in zip(mprogs, mres):
+        if r.get("timeout") or r.get("panic") is not None:
+            classes["model_builder_panic"] = classes.get("model_builder_panic", 0) + 1
+            run.violation("model construction or a call on the constructed model panicked / hung: %s" % (r.get("panic") or "timeout"),
+                          {"names": names, "ops": ops, "calls": calls, "result": r})
+        elif r["head"]["ok"]:
+            nmb_ok += 1
+    classes["model_builder_programs"] = len(mprogs)
+    classes["model_builder_programs_accepted"] = nmb_ok
     run.coverage.update({
         "explanation": "PARTIAL. Proved (coq/Props/C08.v): the protocol never decomposes a non-finite matrix, absent residuals end the fit "
                        "with an error, the optimizer's number of model updates is bounded by its reported evaluations, statistics / model "
